@@ -303,6 +303,7 @@ VP_MEMMOVE(vp_memmove_q, uint64_t)
 VP_MEMMOVE(vp_memmove_p, char*)
 static inline void vp_memset_b(char* d, int c, uint64_t n) { for (uint64_t i = 0; i < n; i++) d[i] = (char)c; }
 #endif
+static inline void vp_glibcxx_assert_fail(void) { VP_CHECK(0, "libstdc++ container precondition violated (_GLIBCXX_ASSERTIONS)"); __CPROVER_assume(0); }
 static inline int vp_memcmp(char* a, char* b, uint64_t n) { return memcmp(a, b, n); }
 static inline uint64_t vp_strlen(char* a) { return strlen(a); }
 static inline int vp_strcmp(char* a, char* b) { return strcmp(a, b); }
@@ -344,16 +345,26 @@ static inline void vp_cxa_rethrow(void) {
   vp_exc.pending = 1; vp_exc.obj = vp_caught[vp_cur][n - 1].obj; vp_exc.tinfo = vp_caught[vp_cur][n - 1].tinfo;
 }
 /* std::exception_ptr = { void* } ; exception objects are never freed by the model */
+#define VP_EPTR_MAX 4
+char* vp_eptr_obj[VP_EPTR_MAX]; char* vp_eptr_ti[VP_EPTR_MAX]; int vp_eptr_n;
+static inline void vp_eptr_note_(char* obj, char* ti) {
+  for (int i = 0; i < VP_EPTR_MAX; i++) if (i < vp_eptr_n && vp_eptr_obj[i] == obj) return;
+  VP_CHECK(vp_eptr_n < VP_EPTR_MAX, "model bound: exception_ptr table");
+  if (vp_eptr_n < VP_EPTR_MAX) { vp_eptr_obj[vp_eptr_n] = obj; vp_eptr_ti[vp_eptr_n] = ti; vp_eptr_n++; }
+}
+/* std::rethrow_exception(exception_ptr): the class is passed by invisible reference */
+static inline void vp_rethrow_exception(char* ep) {
+  char* obj = *(char**)ep; char* ti = 0;
+  for (int i = 0; i < VP_EPTR_MAX; i++) if (i < vp_eptr_n && vp_eptr_obj[i] == obj) ti = vp_eptr_ti[i];
+  vp_exc.pending = 1; vp_exc.obj = obj; vp_exc.tinfo = ti; vp_throw_count++;
+}
 static inline void vp_current_exception(char* ret) {
   int n = vp_ncaught[vp_cur];
   *(char**)ret = n > 0 ? vp_caught[vp_cur][n - 1].obj : (char*)0;
-  /* remember the type next to the object: stored in a side table keyed by object */
+  if (n > 0) vp_eptr_note_(vp_caught[vp_cur][n - 1].obj, vp_caught[vp_cur][n - 1].tinfo);
 }
-#define VP_EPTR_MAX 4
-char* vp_eptr_obj[VP_EPTR_MAX]; char* vp_eptr_ti[VP_EPTR_MAX]; int vp_eptr_n;
-static inline void vp_eptr_note(char* obj, char* ti) {
-  if (vp_eptr_n < VP_EPTR_MAX) { vp_eptr_obj[vp_eptr_n] = obj; vp_eptr_ti[vp_eptr_n] = ti; vp_eptr_n++; }
-}
+static inline void vp_noop_p(char* p) { (void)p; }
+static inline void vp_eptr_swap(char* a, char* b) { char* t = *(char**)a; *(char**)a = *(char**)b; *(char**)b = t; }
 static inline void vp_eptr_addref(char* p) { (void)p; }
 static inline void vp_eptr_release(char* p) { (void)p; }
 static inline void vp_uncaught(void) { VP_CHECK(0, "uncaught exception leaves a thread entry function"); }
@@ -434,6 +445,82 @@ static inline void vp_tab_del(int32_t t, char* p) {
 }
 static inline int32_t vp_tab_count(int32_t t) { int c = 0; for (int i = 0; i < VP_TAB; i++) c += vp_tab_used[t][i]; return c; }
 static inline int32_t vp_tab_has(int32_t t, char* p) { return vp_tab_find(t, p) >= 0; }
+
+/* ------------------------------------------------------------------ std::map internals that live in libstdc++.so (tree.cc): unbalanced
+ * binary-search-tree versions with the same in-order / iterator / erase-returns-the-unlinked-node contract (no recolouring, no rotations).
+ * _Rb_tree_node_base = { int color; node* parent; node* left; node* right; }; header.parent = root, .left = leftmost, .right = rightmost. */
+#define RB_PARENT(n) (*(char**)((n) + 8))
+#define RB_LEFT(n) (*(char**)((n) + 16))
+#define RB_RIGHT(n) (*(char**)((n) + 24))
+#define RB_COLOR(n) (*(int*)(n))
+static inline void vp_rb_insert(uint8_t insert_left, char* x, char* p, char* header) {
+  RB_PARENT(x) = p; RB_LEFT(x) = 0; RB_RIGHT(x) = 0; RB_COLOR(x) = 1;   /* every real node black: only the header is red (decrement relies on it) */
+  if (insert_left) {
+    RB_LEFT(p) = x;
+    if (p == header) { RB_PARENT(header) = x; RB_RIGHT(header) = x; }
+    else if (p == RB_LEFT(header)) RB_LEFT(header) = x;
+  } else {
+    RB_RIGHT(p) = x;
+    if (p == RB_RIGHT(header)) RB_RIGHT(header) = x;
+  }
+}
+static inline char* vp_rb_increment(char* x) {
+  if (RB_RIGHT(x) != 0) {
+    x = RB_RIGHT(x);
+    while (RB_LEFT(x) != 0) x = RB_LEFT(x);
+  } else {
+    char* y = RB_PARENT(x);
+    while (x == RB_RIGHT(y)) { x = y; y = RB_PARENT(y); }
+    if (RB_RIGHT(x) != y) x = y;
+  }
+  return x;
+}
+static inline char* vp_rb_decrement(char* x) {
+  if (RB_COLOR(x) == 0 && RB_PARENT(x) != 0 && RB_PARENT(RB_PARENT(x)) == x) return RB_RIGHT(x);   /* --end() */
+  if (RB_LEFT(x) != 0) {
+    char* y = RB_LEFT(x);
+    while (RB_RIGHT(y) != 0) y = RB_RIGHT(y);
+    x = y;
+  } else {
+    char* y = RB_PARENT(x);
+    while (x == RB_LEFT(y)) { x = y; y = RB_PARENT(y); }
+    x = y;
+  }
+  return x;
+}
+static inline char* vp_rb_erase(char* z, char* header) {
+  char* y = z; char* x = 0;
+  if (RB_LEFT(y) == 0) x = RB_RIGHT(y);
+  else if (RB_RIGHT(y) == 0) x = RB_LEFT(y);
+  else { y = RB_RIGHT(y); while (RB_LEFT(y) != 0) y = RB_LEFT(y); x = RB_RIGHT(y); }
+  if (y != z) {
+    RB_PARENT(RB_LEFT(z)) = y; RB_LEFT(y) = RB_LEFT(z);
+    if (y != RB_RIGHT(z)) {
+      if (x) RB_PARENT(x) = RB_PARENT(y);
+      RB_LEFT(RB_PARENT(y)) = x;
+      RB_RIGHT(y) = RB_RIGHT(z); RB_PARENT(RB_RIGHT(z)) = y;
+    }
+    if (RB_PARENT(header) == z) RB_PARENT(header) = y;
+    else if (RB_LEFT(RB_PARENT(z)) == z) RB_LEFT(RB_PARENT(z)) = y;
+    else RB_RIGHT(RB_PARENT(z)) = y;
+    RB_PARENT(y) = RB_PARENT(z);
+    y = z;
+  } else {
+    if (x) RB_PARENT(x) = RB_PARENT(y);
+    if (RB_PARENT(header) == z) RB_PARENT(header) = x;
+    else if (RB_LEFT(RB_PARENT(z)) == z) RB_LEFT(RB_PARENT(z)) = x;
+    else RB_RIGHT(RB_PARENT(z)) = x;
+    if (RB_LEFT(header) == z) {
+      if (RB_RIGHT(z) == 0) RB_LEFT(header) = RB_PARENT(z);
+      else { char* m = x; while (RB_LEFT(m) != 0) m = RB_LEFT(m); RB_LEFT(header) = m; }
+    }
+    if (RB_RIGHT(header) == z) {
+      if (RB_LEFT(z) == 0) RB_RIGHT(header) = RB_PARENT(z);
+      else { char* m = x; while (RB_RIGHT(m) != 0) m = RB_RIGHT(m); RB_RIGHT(header) = m; }
+    }
+  }
+  return y;
+}
 
 #ifndef VP_HB
 static inline void vp_hb_data_write(int32_t loc) { (void)loc; }
